@@ -1,6 +1,7 @@
 import LokiModel.Sexp
 import LokiModel.C06.Codec
 import LokiModel.C09.Model
+import LokiModel.C09.Quot
 open LokiModel.C09 LokiModel.C06 LokiModel.Expr Sexp
 
 mutual
@@ -35,6 +36,12 @@ def step : Sexp → Option Sexp
       pure (list [atom "ok", encAns (symbolicOp a o b), list [atom "simp", d],
                   list [atom "known", ofBool (Known09 a o b)], list [atom "signzero", ofBool (SignZero a b)],
                   list [atom "frag", ofBool (Frag a && Frag b)]])
+  | list [atom "symopq", _, _, _] => pure (list [atom "ok", atom "outside-model"])
+  | list [atom "distq", e] => do
+      let e ← decE e
+      pure (list [atom "ok", match distributeQuotient DQFUEL false e with
+        | some r => encE r
+        | none => atom "none"])
   | list [atom "str", a] => do
       let a ← decE a
       pure (list [atom "ok", str (strOf a)])
